@@ -34,9 +34,12 @@ pub enum Variant {
     /// mixed argument types, compound argument expressions (if / block / call with inner commas),
     /// tuple return type, nested recursive call in argument position
     Mix,
+    /// reference-typed arguments: a single `&[u64]` argument (recursion over sub-slices), or a `&mut Vec<u64>` passed
+    /// along as the last argument; the closure is called several times with borrows of different lifetimes
+    Refs,
 }
 
-pub const ALL_VARIANTS: [Variant; 4] = [Variant::Lin, Variant::Two, Variant::Types, Variant::Mix];
+pub const ALL_VARIANTS: [Variant; 5] = [Variant::Lin, Variant::Two, Variant::Types, Variant::Mix, Variant::Refs];
 
 impl Variant {
     pub fn name(self) -> &'static str {
@@ -45,6 +48,7 @@ impl Variant {
             Variant::Two => "two",
             Variant::Types => "types",
             Variant::Mix => "mix",
+            Variant::Refs => "refs",
         }
     }
     pub fn parse(s: &str) -> Option<Variant> {
@@ -202,8 +206,19 @@ impl Shape {
         self.caps.len() >= 2 || self.nargs >= 3 || self.tc
     }
 
+    fn is_ref_arg(&self, i: usize) -> bool {
+        self.variant == Variant::Refs && (self.nargs == 1 || i + 1 == self.nargs)
+    }
     fn arg_ty(&self, i: usize) -> &'static str {
-        if self.variant == Variant::Mix {
+        if self.variant == Variant::Refs {
+            if self.nargs == 1 {
+                "&[u64]"
+            } else if i + 1 == self.nargs {
+                "&mut Vec<u64>"
+            } else {
+                "u64"
+            }
+        } else if self.variant == Variant::Mix {
             ["u64", "i64", "u32", "u8"][i]
         } else {
             "u64"
@@ -277,7 +292,11 @@ impl Shape {
         let caps = self.cap_infos();
         let mut l: Vec<String> = Vec::new();
         for i in 0..k {
-            l.push(format!("let v{i}: u64 = a{i} as u64;"));
+            if self.is_ref_arg(i) {
+                l.push(format!("let v{i}: u64 = a{i}.len() as u64;"));
+            } else {
+                l.push(format!("let v{i}: u64 = a{i} as u64;"));
+            }
         }
         let vs: Vec<String> = (0..k).map(|i| format!("v{i}")).collect();
         // call budget: a runaway recursion becomes a panic (caught in main) instead of a stack overflow
@@ -304,9 +323,19 @@ impl Shape {
                 l.push(c.ty.mutate(&c.name, c.prime));
             }
         }
+        if self.variant == Variant::Refs {
+            if k == 1 {
+                l.push("h = h.wrapping_mul(37).wrapping_add(a0.first().copied().unwrap_or(5));".to_string());
+            } else {
+                l.push(format!("h = h.wrapping_mul(37).wrapping_add(a{}.last().copied().unwrap_or(5));", k - 1));
+                l.push(format!("a{}.push(h % 1000);", k - 1));
+            }
+        }
         // argument lists of the recursive calls
         let cast = |i: usize, e: String| -> String {
-            if self.arg_ty(i) == "u64" {
+            if self.is_ref_arg(i) {
+                format!("a{i}")
+            } else if self.arg_ty(i) == "u64" {
                 e
             } else {
                 format!("({e}) as {}", self.arg_ty(i))
@@ -352,9 +381,20 @@ impl Shape {
         };
         let cond = if k >= 2 { "v1 % 2 == 0" } else { "v0 % 3 == 0" };
         match self.variant {
-            Variant::Lin | Variant::Types => {
-                let ca = call(&list("a0 - 1".into(), 0, None));
-                let cb = call(&list(if k == 1 { "a0 / 2".into() } else { "a0 - 1".into() }, 1, None));
+            Variant::Lin | Variant::Types | Variant::Refs => {
+                let refs1 = self.variant == Variant::Refs && k == 1;
+                let ca = call(&list(if refs1 { "&a0[1..]".into() } else { "a0 - 1".into() }, 0, None));
+                let cb = call(&list(
+                    if refs1 {
+                        "&a0[..a0.len() / 2]".into()
+                    } else if k == 1 {
+                        "a0 / 2".into()
+                    } else {
+                        "a0 - 1".into()
+                    },
+                    1,
+                    None,
+                ));
                 if self.ret {
                     l.push("if v0 == 0 {".into());
                     l.push("    h".into());
@@ -428,6 +468,9 @@ impl Shape {
 
     /// Complete source of the shape's function, bracketed by the BEGIN/END markers.
     pub fn source(&self, fn_name: &str) -> String {
+        if self.variant == Variant::Refs {
+            return self.source_refs(fn_name);
+        }
         let id = self.id();
         let caps = self.cap_infos();
         let k = self.nargs;
@@ -520,6 +563,136 @@ impl Shape {
         writeln!(w, "    let want_trace = crate::support::trace_take();").unwrap();
         writeln!(w, "    // ---- compare").unwrap();
         writeln!(w, "    crate::support::cmp(\"return value\", &got_ret, &want_ret)?;").unwrap();
+        for c in &caps {
+            let what = if c.is_trace {
+                format!("capture {} (trace of (call index, arguments))", c.name)
+            } else {
+                format!("final state of capture {}", c.name)
+            };
+            writeln!(w, "    crate::support::cmp(\"{}\", &{}, &t_{})?;", what, c.name, c.name).unwrap();
+        }
+        writeln!(w, "    crate::support::cmp(\"thread-local trace of (call index, arguments)\", &got_trace, &want_trace)?;").unwrap();
+        match caps.iter().find(|c| c.is_trace) {
+            Some(t) => writeln!(w, "    Ok(({}.len() / {}) as u64)", t.name, k + 1).unwrap(),
+            None => writeln!(w, "    Ok((got_trace.len() / {}) as u64)", k + 1).unwrap(),
+        }
+        writeln!(w, "}}").unwrap();
+        writeln!(w, "// END SHAPE {}", id).unwrap();
+        s
+    }
+}
+
+impl Shape {
+    /// `refs` variant: the closure takes a reference-typed argument and is called several times with borrows of
+    /// different, non-overlapping lifetimes (the borrowed buffer is modified between the calls; one borrow is of a
+    /// local that dies while the closure is still alive), exactly like the hand-written twin.
+    fn source_refs(&self, fn_name: &str) -> String {
+        let id = self.id();
+        let caps = self.cap_infos();
+        let k = self.nargs;
+        let tc = self.tc;
+        let macro_call = move |a: &[String]| -> String {
+            if tc {
+                format!("rec!({},)", a.join(", "))
+            } else {
+                format!("rec!({})", a.join(", "))
+            }
+        };
+        let cap_names: Vec<String> = caps.iter().map(|c| c.name.clone()).collect();
+        let twin_call = move |a: &[String]| -> String {
+            let mut all: Vec<String> = a.to_vec();
+            all.extend(cap_names.iter().cloned());
+            format!("twin({})", all.join(", "))
+        };
+        let cap_list: Vec<String> = caps
+            .iter()
+            .map(|c| format!("{}: {}{}", c.name, if c.kind == Cap::R { "&" } else { "&mut " }, c.ty.name()))
+            .collect();
+        let arg_list: Vec<String> = (0..k).map(|i| format!("a{}: {}", i, self.arg_ty(i))).collect();
+        // the three call sites: (leading u64 arguments, which buffer expression)
+        let lead = |scale: &str| -> Vec<String> { (0..k.saturating_sub(1)).map(|i| format!("inp[{i}] {scale}")).collect() };
+        let calls = |f: &str, buf: &str, data: &str, extra_caps: &[String]| -> Vec<String> {
+            let with = |mut v: Vec<String>, last: String| -> String {
+                v.push(last);
+                v.extend(extra_caps.iter().cloned());
+                format!("{f}({})", v.join(", "))
+            };
+            if k == 1 {
+                vec![
+                    format!("let r1 = {};", with(vec![], format!("&{data}[..]"))),
+                    format!("let r2 = {{ let local: Vec<u64> = vec![k0 % 3, 5, inp[0] % 11, 8]; {} }};", with(vec![], "&local[1..]".to_string())),
+                    format!("let r3 = {};", with(vec![], format!("&{data}[{data}.len() / 2..]"))),
+                ]
+            } else {
+                vec![
+                    format!("let r1 = {};", with(lead(""), format!("&mut {buf}"))),
+                    format!("{buf}.push(4242);"),
+                    format!("let r2 = {};", with(lead("/ 2 + 1"), format!("&mut {buf}"))),
+                    format!("{buf}.truncate({buf}.len() / 2 + 1);"),
+                    format!("let r3 = {{ let mut local: Vec<u64> = vec![k0 % 7]; let r = {}; local.len() as u64 + {buf}.len() as u64 + 0 * 0; r }};", with(lead("% 7"), "&mut local".to_string())),
+                ]
+            }
+        };
+        let mut s = String::new();
+        let w = &mut s;
+        writeln!(w, "// BEGIN SHAPE {} {}", id, self.describe()).unwrap();
+        writeln!(w, "pub fn {fn_name}(inp: [u64; 4], k0: u64) -> Result<u64, String> {{").unwrap();
+        writeln!(w, "    // ---- macro version").unwrap();
+        for c in &caps {
+            let init = if c.is_trace { "Vec::new()".to_string() } else { c.ty.init(c.idx, c.kind == Cap::M) };
+            writeln!(w, "    let {}{}: {} = {};", if c.kind == Cap::M { "mut " } else { "" }, c.name, c.ty.name(), init).unwrap();
+        }
+        writeln!(w, "    let mut buf: Vec<u64> = vec![k0 % 7, 3];").unwrap();
+        writeln!(w, "    let data: Vec<u64> = (0..(inp[0] % 9 + 2)).map(|x| x * 7 + k0 % 5).collect();").unwrap();
+        writeln!(w, "    let _ = crate::support::trace_take();").unwrap();
+        writeln!(w, "    // MACRO BEGIN").unwrap();
+        writeln!(w, "    let got_ret = {{").unwrap();
+        writeln!(w, "        let mut lam = rec_lambda!(rec, |{}| {{", cap_list.join(", ")).unwrap();
+        if self.ret {
+            writeln!(w, "            |{}| -> {} {{", arg_list.join(", "), self.ret_ty()).unwrap();
+        } else {
+            writeln!(w, "            |{}| {{", arg_list.join(", ")).unwrap();
+        }
+        for line in self.body(&macro_call) {
+            writeln!(w, "                {line}").unwrap();
+        }
+        writeln!(w, "            }}").unwrap();
+        writeln!(w, "        }});").unwrap();
+        for line in calls("lam", "buf", "data", &[]) {
+            writeln!(w, "        {line}").unwrap();
+        }
+        writeln!(w, "        (r1, r2, r3)").unwrap();
+        writeln!(w, "    }};").unwrap();
+        writeln!(w, "    // MACRO END").unwrap();
+        writeln!(w, "    let got_trace = crate::support::trace_take();").unwrap();
+        writeln!(w, "    // ---- hand-written twin: arguments, then the captures in the order they are listed").unwrap();
+        let mut params = arg_list.clone();
+        params.extend(cap_list.iter().cloned());
+        if self.ret {
+            writeln!(w, "    fn twin({}) -> {} {{", params.join(", "), self.ret_ty()).unwrap();
+        } else {
+            writeln!(w, "    fn twin({}) {{", params.join(", ")).unwrap();
+        }
+        for line in self.body(&twin_call) {
+            writeln!(w, "        {line}").unwrap();
+        }
+        writeln!(w, "    }}").unwrap();
+        for c in &caps {
+            let init = if c.is_trace { "Vec::new()".to_string() } else { c.ty.init(c.idx, c.kind == Cap::M) };
+            writeln!(w, "    let {}t_{}: {} = {};", if c.kind == Cap::M { "mut " } else { "" }, c.name, c.ty.name(), init).unwrap();
+        }
+        writeln!(w, "    let mut t_buf: Vec<u64> = vec![k0 % 7, 3];").unwrap();
+        let tcaps: Vec<String> = caps.iter().map(|c| format!("{}t_{}", if c.kind == Cap::R { "&" } else { "&mut " }, c.name)).collect();
+        writeln!(w, "    let want_ret = {{").unwrap();
+        for line in calls("twin", "t_buf", "data", &tcaps) {
+            writeln!(w, "        {line}").unwrap();
+        }
+        writeln!(w, "        (r1, r2, r3)").unwrap();
+        writeln!(w, "    }};").unwrap();
+        writeln!(w, "    let want_trace = crate::support::trace_take();").unwrap();
+        writeln!(w, "    // ---- compare").unwrap();
+        writeln!(w, "    crate::support::cmp(\"return values of the three calls\", &got_ret, &want_ret)?;").unwrap();
+        writeln!(w, "    crate::support::cmp(\"buffer passed by &mut through the recursion\", &buf, &t_buf)?;").unwrap();
         for c in &caps {
             let what = if c.is_trace {
                 format!("capture {} (trace of (call index, arguments))", c.name)
